@@ -41,6 +41,27 @@ def kill_scenarios(rng, tier):
         yield s
 
 
+# ---- ruleset-cgroup rulesets: the pause is per matching cgroup ----------------------------------------------------------
+#
+# "(per matching cgroup, for ruleset-cgroup rulesets)": decided on C11's engine (h_rscgroup: real compiler, Engine and
+# Ruleset over a scratch tree, virtual clock), with calm trees so that instances live long enough to be paused and resumed.
+# Clauses C05.percg_* of lean/Driver/Rscgroup.lean: inside [t, t+d) of an instance its detectors run on every tick and none
+# of its actions does; from t+d on a firing instance runs its actions again.
+
+def percg_scenarios(rng, tier):
+    from . import C11
+    n = {"quick": 1500, "thorough": 15000, "search": 4000}[tier]
+    S = C11.S
+    for _ in range(n):
+        s = C11.mk_scenario(rng, calm=rng.random() < 0.85, nticks=rng.randint(4, 10))
+        s["prop"] = PROP
+        # whole-second gaps so that ticks land exactly on t+d
+        for t in s["ticks"]:
+            if rng.random() < 0.7:
+                t["gap"] = rng.choice([S, S, 2 * S, 3 * S, 5 * S, 7 * S, 15 * S])
+        yield s
+
+
 def run(tier, seed, replay=None):
     import json
     import os
@@ -54,6 +75,11 @@ def run(tier, seed, replay=None):
         return c.startswith("C05.")
     if replay:
         rp = json.load(open(replay))
+        if rp.get("pass") == "percg":
+            viol, _, _ = core.extra_pass(PROP, "rscgroup", "h_rscgroup", "asan", [rp["scenario"]], tier, seed, want=want, label="percg")
+            for c, p in viol:
+                print("VIOLATION property=%s replay=%s" % (PROP, p))
+            return 1 if viol else 0
         if rp.get("pass") == "killproto":
             viol, _, _ = core.extra_pass(PROP, "kill", "h_kill", "asan", [rp["scenario"]], tier, seed, want=want, label="killproto")
             for c, p in viol:
@@ -73,6 +99,16 @@ def run(tier, seed, replay=None):
                                    "plugin-protocol pass (the five real kill plugins, h_kill): the C01 scenario space with "
                                    "always_continue in half and a plugin-own post_action_delay in 70% of the scenarios; clause: "
                                    "pause_actions is called only in a run() that returns STOP")
+    from . import C11
+    scs2 = list(percg_scenarios(random.Random(seed * 7121 + 3), "search" if esc else tier))
+    viol2, cov2, res2 = core.extra_pass(PROP, "rscgroup", "h_rscgroup", "asan", scs2, tier, seed, want=want,
+                                        shrink_candidates=C11.shrink_candidates, label="percg")
+    cov2["percg_pass_paused_instance_ticks"] = sum(int(v.get("paused_ticks", 0)) for s, t, v in res2)
+    core.merge_extra_into_evidence(PROP, cov2, len(viol2),
+                                   "per-cgroup pass (ruleset-cgroup rulesets on h_rscgroup, C11's scenario space with calm trees and "
+                                   "whole-second gaps): inside the pause of an instance its detectors run every tick and no action of "
+                                   "it does; from t+d on its actions run again")
+    viol = viol + viol2
     for c, p in viol:
         print("VIOLATION property=%s replay=%s" % (PROP, p))
     return 1 if (rc or viol) else 0
